@@ -213,6 +213,18 @@ func VerifH12a() {
 		area = vCat(vCStr([]byte(key)), vCStr(val), area)
 		vReach("well-known-key")
 	}
+	// PQ=1: the area starts with two pairs whose keys carry the prefix reserved
+	// for protocol options ("_pq_."), the same name twice or two names — the
+	// solver's choice. Whatever the server makes of them, what it sends is
+	// well-formed and the handlers see what the packet said.
+	if vParam("PQ", 0) > 0 {
+		names := []string{"_pq_.a", "_pq_.b"}
+		k1, k2 := names[vChoose(2)], names[vChoose(2)]
+		area = vCat(vCStr([]byte(k1)), vCStr([]byte("1")), vCStr([]byte(k2)), vCStr([]byte("2")), area)
+		if k1 == k2 {
+			vReach("protocol-option-repeated")
+		}
+	}
 	// MANY > 0: the area starts with MANY distinct concrete pairs (k00=v, k01=v,
 	// ...): any cap on the number of startup parameters below MANY is crossed
 	many := vParam("MANY", 0)
